@@ -49,8 +49,8 @@ NoSiteKeys(e) == { Key(r) : r \in { x \in Rng(e.serial) : x.g \in NoSiteMols(e) 
 
 (* sited molecules of a tiled contig whose site lies in no bin at all (outside [0, len)): no job can be "the one whose bin *)
 (* contains its cut site"; observation only *)
-OutsideMols(e) == { g \in Mols(e) : /\ Sited(e, g) /\ Owners(e, SiteContig(e, g), SiteOf(e, g)) = {}
-                                    /\ \E t \in RegionTasks(e) : t.c = SiteContig(e, g) }
+OutsideMols(e) == { g \in Mols(e) : /\ Sited(e, g) /\ \E t \in RegionTasks(e) : t.c = SiteContig(e, g)
+                                    /\ Owners(e, SiteContig(e, g), SiteOf(e, g)) = {} }
 SkipKeys(e) == NoSiteKeys(e) \cup { Key(r) : r \in { x \in Rng(e.serial) : x.g \in OutsideMols(e) } }
 
 (* extent of a fragment = cells covered by its reads and its cut site; "one fragment length" of the statement *)
@@ -63,10 +63,11 @@ MaxExt(e, c) ==
     LET Q == { r.q : r \in { x \in Rng(e.serial) : x.c = c } } IN
     IF Q = {} THEN 0 ELSE MaxOf({ FragExt(e, q) : q \in Q })
 MarginOK(e) ==
+    LET mx == [c \in 0 .. (Len(e.contigs) - 1) |-> MaxExt(e, c)] IN
     \A t \in RegionTasks(e) :
         /\ t.fs <= t.s /\ t.e <= t.fe
-        /\ (t.s - t.fs >= MaxExt(e, t.c) \/ t.fs <= 0)
-        /\ (t.fe - t.e >= MaxExt(e, t.c) \/ t.fe >= CLen(e, t.c))
+        /\ (t.s - t.fs >= mx[t.c] \/ t.fs <= 0)
+        /\ (t.fe - t.e >= mx[t.c] \/ t.fe >= CLen(e, t.c))
 
 (* ---- what was written ---- *)
 JobRecs(e, j) == Rng(e.jobs[j].recs)
@@ -75,22 +76,29 @@ Output(e) == IF Len(e.merged) > 0 THEN [i \in DOMAIN e.merged |-> Proj(e.merged[
              ELSE FlattenSeq([j \in DOMAIN e.jobs |-> [i \in DOMAIN e.jobs[j].recs |-> Proj(e.jobs[j].recs[i])]])
 KeyOfProj(x) == <<x[1], x[2]>>
 
+(* sited serial molecules: owner jobs (by cut site) and writer jobs (by records) *)
+SitedMols(e) == { g \in Mols(e) : Sited(e, g) }
+OwnTab(e) == [g \in SitedMols(e) |-> Owners(e, SiteContig(e, g), SiteOf(e, g))]
+WriTab(e) == [g \in SitedMols(e) |-> Writers(e, { Key(r) : r \in MolRecs(e, g) })]
+
 OwnerVerdict(e) ==
-    LET G == { g \in Mols(e) : Sited(e, g) /\ Cardinality(Owners(e, SiteContig(e, g), SiteOf(e, g))) = 1 }
-        W(g) == Writers(e, { Key(r) : r \in MolRecs(e, g) })
-        O(g) == Owners(e, SiteContig(e, g), SiteOf(e, g))
-    IN IF \E g \in G : W(g) = {} THEN "Inv_C08_OneOwner_unwritten"
-       ELSE IF \E g \in G : ~(W(g) \subseteq O(g)) /\ O(g) \subseteq W(g) THEN "Inv_C08_OneOwner_also_foreign_job"
-       ELSE IF \E g \in G : W(g) # O(g) THEN "Inv_C08_OneOwner_wrong_job"
+    LET O == OwnTab(e)
+        W == WriTab(e)
+        G == { g \in SitedMols(e) : Cardinality(O[g]) = 1 }
+    IN IF \E g \in G : W[g] = {} THEN "Inv_C08_OneOwner_unwritten"
+       ELSE IF \E g \in G : ~(W[g] \subseteq O[g]) /\ O[g] \subseteq W[g] THEN "Inv_C08_OneOwner_also_foreign_job"
+       ELSE IF \E g \in G : W[g] # O[g] THEN "Inv_C08_OneOwner_wrong_job"
        ELSE "ok"
 
 CompleteVerdict(e) ==
-    LET G == { g \in Mols(e) : Sited(e, g) /\ Cardinality(Owners(e, SiteContig(e, g), SiteOf(e, g))) = 1 }
-        Own(g) == CHOOSE j \in Owners(e, SiteContig(e, g), SiteOf(e, g)) : TRUE
-        Mine(g) == { i \in DOMAIN e.jobs[Own(g)].recs : Key(e.jobs[Own(g)].recs[i]) \in { Key(r) : r \in MolRecs(e, g) } }
+    LET O == OwnTab(e)
+        G == { g \in SitedMols(e) : Cardinality(O[g]) = 1 }
+        Own == [g \in G |-> CHOOSE j \in O[g] : TRUE]
+        Mine == [g \in G |-> { i \in DOMAIN e.jobs[Own[g]].recs :
+                                 Key(e.jobs[Own[g]].recs[i]) \in { Key(r) : r \in MolRecs(e, g) } }]
     IN IF \E g \in G : \E r \in MolRecs(e, g) :
-              Cardinality({ i \in Mine(g) : Key(e.jobs[Own(g)].recs[i]) = Key(r) }) # 1 THEN "Inv_C08_Complete_records"
-       ELSE IF \E g \in G : Cardinality({ e.jobs[Own(g)].recs[i].ix : i \in Mine(g) }) > 1 THEN "Inv_C08_Complete_split"
+              Cardinality({ i \in Mine[g] : Key(e.jobs[Own[g]].recs[i]) = Key(r) }) # 1 THEN "Inv_C08_Complete_records"
+       ELSE IF \E g \in G : Cardinality({ e.jobs[Own[g]].recs[i].ix : i \in Mine[g] }) > 1 THEN "Inv_C08_Complete_split"
        ELSE "ok"
 
 EqualVerdict(e) ==
@@ -108,29 +116,34 @@ EqualVerdict(e) ==
 
 InScope(e) == TilingOK(e) /\ MarginOK(e)
 
+Judged(e) ==
+    LET ov == OwnerVerdict(e) IN
+    IF ov # "ok" THEN ov
+    ELSE LET cv == CompleteVerdict(e) IN
+         IF cv # "ok" THEN cv ELSE EqualVerdict(e)
+
 Verdict(e) ==
     IF e.ev # "run" THEN "unknown_event"
     ELSE IF ~InScope(e) THEN "ok"                       \* outside the statement's precondition: observation only
     ELSE IF e.raised # "" THEN "Inv_C08_raised"
-    ELSE IF OwnerVerdict(e) # "ok" THEN OwnerVerdict(e)
-    ELSE IF CompleteVerdict(e) # "ok" THEN CompleteVerdict(e)
-    ELSE EqualVerdict(e)
+    ELSE Judged(e)
 
 (* informational observations *)
-Notes(i, e) ==
-    /\ IF ~TilingOK(e) THEN Note(i, e.tid, "precondition_not_met_tiling") ELSE TRUE
-    /\ IF TilingOK(e) /\ ~MarginOK(e) THEN Note(i, e.tid, "precondition_not_met_margin") ELSE TRUE
-    /\ IF ~InScope(e) /\ e.raised = "" /\ (OwnerVerdict(e) # "ok" \/ EqualVerdict(e) # "ok")
-       THEN Note(i, e.tid, "differs_outside_precondition") ELSE TRUE
+Notes(i, e, v) ==
+    LET tok == TilingOK(e)
+        mok == tok /\ MarginOK(e) IN
+    /\ IF ~tok THEN Note(i, e.tid, "precondition_not_met_tiling") ELSE TRUE
+    /\ IF tok /\ ~mok THEN Note(i, e.tid, "precondition_not_met_margin") ELSE TRUE
+    /\ IF ~mok /\ e.raised = "" /\ Judged(e) # "ok" THEN Note(i, e.tid, "differs_outside_precondition") ELSE TRUE
     /\ IF NoSiteMols(e) # {} THEN Note(i, e.tid, "no_site_molecule") ELSE TRUE
-    /\ IF InScope(e) /\ OutsideMols(e) # {} THEN Note(i, e.tid, "site_outside_every_bin") ELSE TRUE
+    /\ IF mok /\ OutsideMols(e) # {} THEN Note(i, e.tid, "site_outside_every_bin") ELSE TRUE
     /\ IF Has(e, "pred")
        THEN (IF e.wrote = e.pred THEN Note(i, e.tid, "as_coded_model_predicts_jobs")
-             ELSE IF Verdict(e) = "ok" THEN Note(i, e.tid, "design_model_predicts_jobs")
+             ELSE IF v = "ok" THEN Note(i, e.tid, "design_model_predicts_jobs")
              ELSE Note(i, e.tid, "model_divergence"))
        ELSE TRUE
 
 TInit == l = 1
-TNext == l <= Len(Log) /\ Judge(l, Verdict(Log[l])) /\ Notes(l, Log[l]) /\ l' = l + 1
+TNext == l <= Len(Log) /\ LET v == Verdict(Log[l]) IN Judge(l, v) /\ Notes(l, Log[l], v) /\ l' = l + 1
 TAccepted == TLCGet("stats").diameter - 1 = Len(Log)
 =====================================================================================================
